@@ -67,6 +67,7 @@ inductive RStmt where
   | opasg (v : LV) (op : BOp) (a : RA)
   | inc (v : LV)
   | dec (v : LV)
+  | chain (v : LV) (a : RA) (op1 : BOp) (b1 : RA) (ops : List (BOp × RA))   -- `v = a ∘1 b1 ∘2 b2 …` (stage 7), at least two operators
   | asgW (s : String) (a : WA)                     -- 16-bit destination `s` (an `unsigned short` variable)
   | binW (s : String) (op : BOp) (a b : WA)
   | opasgW (s : String) (op : BOp) (a : WA)
@@ -81,12 +82,13 @@ def RA.isReg : RA → Bool
   | _ => false
 
 def RStmt.target : RStmt → LV
-  | .asg v _ | .bin v _ _ _ | .opasg v _ _ | .inc v | .dec v => v
+  | .asg v _ | .bin v _ _ _ | .opasg v _ _ | .inc v | .dec v | .chain v _ _ _ _ => v
   | .asgW s _ | .binW s _ _ _ | .opasgW s _ _ => .var s
 
 def RInFragment : RStmt → Bool
   | .bin _ _ a b => !(a.isConst && b.isConst)
   | .binW _ _ a b => !(a.isConst && b.isConst)
+  | .chain _ a _ b1 ops => !(a.isConst && b1.isConst) && !ops.isEmpty
   | _ => true
 
 /-- the scratch cell -/
@@ -191,7 +193,16 @@ def binWCode {α : Type} (none : α) (r : Atom → α) (s : String) (op : BOp) (
       (if lowEmitted op y then (mainOf op).map fun m => (m, r y.lo) else []) ++ [(.STA, r (.var s))] ++
     [(.LDA, r x.hi)] ++ (mainOf op).map (fun m => (m, r y.hi)) ++ [(.STA, r (hiCell s))]
 
+/-! ### chains of operators (stage 7): the left operand of every operator after the first is the accumulator -/
+
+def chainCode {α : Type} (none : α) (r : Atom → α) : List (BOp × RA) → List (Mn × α)
+  | [] => []
+  | (op, y) :: rest => opCode none r op y ++ chainCode none r rest
+
 def rtemplate {α : Type} (none : α) (r : Atom → α) (zp : String → Bool) : RStmt → List (Mn × α)
+  | .chain v a op1 b1 ops =>
+    let p := rordered op1 a b1
+    loadA none r p.1 ++ chainCode none r ((op1, p.2) :: ops) ++ storeA none r v
   | .asgW s a => asgWCode r s a
   | .binW s op a b => let p := wordered op a b; binWCode none r s op p.1 p.2
   | .opasgW s op a => binWCode none r s op (.wvar s) a
@@ -234,6 +245,7 @@ def flagsAfter (zp : String → Bool) (fl : Option FRef) : RStmt → Option FRef
   | .bin v op a b => let p := rordered op a b; if orZeroReg op p.1 p.2 then asgFlags zp fl v p.1 else some v
   | .opasg v op a => if orZeroReg op v.ra a then asgFlags zp fl v v.ra else some v
   | .inc v | .dec v => some v
+  | .chain v _ _ _ _ => some v
   | .asgW _ _ | .binW _ _ _ _ | .opasgW _ _ _ => none
 
 /-! ### what the source prescribes, on memory and the two register variables -/
@@ -289,7 +301,18 @@ def binWSpec (L : Layout) (σ : SrcSt) (s : String) (op : BOp) (x y : WA) : SrcS
   let σ1 := wr L σ (.var s) r.1
   wr L σ1 (.el s (.k 1)) (highRes op r.2 (rval L σ1 (.of x.hi)) (rval L σ1 (.of y.hi)))
 
+/-- the value of a chain and the scratch writes its register operands cause, operator by operator -/
+def chainVal (L : Layout) : SrcSt → Byte → List (BOp × RA) → SrcSt × Byte
+  | σ, acc, [] => (σ, acc)
+  | σ, acc, (op, y) :: rest => chainVal L (tmpWrite L σ op y) (op.apply acc (rval L σ y)) rest
+
+def chainSpec (L : Layout) (σ : SrcSt) (v : LV) (a : RA) (op1 : BOp) (b1 : RA) (ops : List (BOp × RA)) : SrcSt :=
+  let p := rordered op1 a b1
+  let r := chainVal L σ (rval L σ p.1) ((op1, p.2) :: ops)
+  wr L r.1 v r.2
+
 def rspec (L : Layout) (σ : SrcSt) : RStmt → SrcSt
+  | .chain v a op1 b1 ops => chainSpec L σ v a op1 b1 ops
   | .asgW s a => asgWSpec L σ s a
   | .binW s op a b => let p := wordered op a b; binWSpec L σ s op p.1 p.2
   | .opasgW s op a => binWSpec L σ s op (.wvar s) a
